@@ -255,13 +255,19 @@ func (x *Exec) callFunction(f *Frame, st *State, fn *ssa.Function, args []Val, b
 // keeper, a store or a pointer to tracked memory) the whole world and the pointed-to memory are havocked.
 func (x *Exec) unknownCall(f *Frame, st *State, info *CallInfo) []callCont {
 	// generated protobuf getter of a dependency type: (*T).GetX() on a non-nil receiver returns field X
-	if ln := lastName(info.Name); strings.HasPrefix(ln, "Get") && len(info.Args) == 1 && strings.Contains(info.Name, "gogoproto/types.") {
-		if pv, ok := info.Args[0].(*PtrVal); ok {
-			if cur, ok := x.load(st, pv).(*Term); ok && cur.Sort.Kind == KData {
-				if i := cur.Sort.FieldIndex(ln[3:]); i >= 0 {
-					x.assumed["protobuf getter "+info.Name] = true
-					return single(st, SelField(cur, i))
-				}
+	if ln := lastName(info.Name); strings.HasPrefix(ln, "Get") && len(info.Args) == 1 &&
+		(strings.Contains(info.Name, "gogoproto/types.") || strings.Contains(info.Name, "cosmossdk.io/x/nft.")) {
+		var cur *Term
+		switch a := info.Args[0].(type) {
+		case *PtrVal:
+			cur, _ = x.load(st, a).(*Term)
+		case *Term:
+			cur = a
+		}
+		if cur != nil && cur.Sort.Kind == KData {
+			if i := cur.Sort.FieldIndex(ln[3:]); i >= 0 {
+				x.assumed["protobuf getter "+info.Name] = true
+				return single(st, SelField(cur, i))
 			}
 		}
 	}
